@@ -304,7 +304,101 @@ def _parse_stream(cmds, want, keys, wrappers):
     return go(0, 0, None, False, [])
 
 
+def enumerate_cases(tier, shard, nshards):
+    """the production caller: CliDeployerJob.parse_result over the shipped (before, after) pairs, committing on and off"""
+    from vf.model import corpus
+    i = 0
+    for k, smp in enumerate(corpus.samples()):
+        if smp["vendor"] == "pc":
+            continue
+        for dont_commit in (False, True):
+            i += 1
+            if i % nshards == shard:
+                yield {"enum": True, "kind": "job", "i": k, "dont_commit": dont_commit, "vendor": smp["vendor"], "model": smp["model"]}
+
+
+_DRIVER = False
+
+
+def _install_driver():
+    global _DRIVER
+    if _DRIVER:
+        return
+    import annet.deploy as D
+    from annet.annlib.command import CommandList
+
+    class Driver(D.DeployDriver):
+        async def bulk_deploy(self, deploy_cmds, args, progress_bar=None):
+            raise NotImplementedError()
+
+        def apply_deploy_rulebook(self, hw, cmd_paths, do_finalize=True, do_commit=True):
+            return D.apply_deploy_rulebook(hw, cmd_paths, do_finalize=do_finalize, do_commit=do_commit)
+
+        def build_configuration_cmdlist(self, hw, do_finalize=True, do_commit=True):
+            return CommandList(), CommandList()
+
+        def build_exit_cmdlist(self, hw):
+            return CommandList()
+    D.driver_connector._classes = [Driver]
+    D.driver_connector._cache = None
+    _DRIVER = True
+
+
+class _JobDev:
+    def __init__(self, hw):
+        self.hw, self.hostname, self.fqdn, self.id, self.tags, self.breed = hw, "h1", "h1.x", 1, [], "x"
+
+
+def _job(case):
+    """What CliDeployerJob hands to the driver == session wrapper for (do_commit = not dont_commit, do_finalize = True) around the
+    commands it displays; the callee annet.deploy.apply_deploy_rulebook is checked against the wrapper tables by the other cases."""
+    import copy
+    import types as _t
+    from annet.annlib.netdev.views.hardware import HardwareView
+    from annet.api import CliDeployerJob
+    from annet.deploy import apply_deploy_rulebook
+    from annet.types import OldNewResult
+    from vf.model import corpus, sut
+    _install_driver()
+    P = _provider()
+    P.deploy_text = None
+    smp = corpus.samples()[case["i"]]
+    hw = HardwareView(smp["model"], None)
+    dev = _JobDev(hw)
+    args = _t.SimpleNamespace(acl_safe=False, dont_commit=case["dont_commit"])
+    job = CliDeployerJob(dev, args)
+    res = OldNewResult(device=dev, old=copy.deepcopy(smp["old"]), new=copy.deepcopy(smp["new"]))
+    job.parse_result(res)
+    labels = ["job", "vendor:" + smp["vendor"]]
+    if job.failed_configs:
+        return labels + ["job-failed"]
+    shown = [l for l in job.cmd_lines[2:-1]] if job.cmd_lines else []
+    cl = job.deploy_cmds.get(dev)
+    got = [(c.level, c.cmd) for c in cl] if cl is not None else []
+    det = {"sample": smp["name"], "model": smp["model"], "dont_commit": case["dont_commit"], "shown": shown, "driver_gets": got}
+    if not shown:
+        if got:
+            raise Violation("stream-for-empty-patch", f"{smp['name']}: nothing displayed but the driver gets {got!r}", det)
+        return labels + ["job-empty"]
+    _, pt = sut.diff_and_patch_hw(hw, copy.deepcopy(smp["old"]), copy.deepcopy(smp["new"]), do_commit=not case["dont_commit"])
+    f0 = sut.registry().match(hw).make_formatter(indent="")
+    paths = f0.cmd_paths(pt)
+    if [p[-1] for p in paths] != shown:
+        raise Violation("job-shows-other-commands", f"{smp['name']}: the job displays {shown!r}, the patch is {[p[-1] for p in paths]!r}"[:700], det)
+    exp = [(c.level, c.cmd) for c in apply_deploy_rulebook(hw, paths, do_finalize=True, do_commit=not case["dont_commit"])]
+    if got != exp:
+        raise Violation("job-stream-differs", f"{smp['name']} dont_commit={case['dont_commit']}: CliDeployerJob hands {got!r} to the driver; the "
+                        f"displayed commands with the session for do_commit={not case['dont_commit']}, do_finalize=True are {exp!r}"[:1100], det)
+    if case["dont_commit"] and any(lv == 0 and "commit" in c for lv, c in got if (lv, c) not in [(len(p) - 1, p[-1]) for p in paths]):
+        raise Violation("commit-when-disabled", f"{smp['name']}: dont_commit is set but the driver gets a commit: {got!r}"[:700], det)
+    if len(got) >= 3:
+        labels.append("two-exits-depth2" if any(lv >= 2 for lv, _ in got) else "job-flat")
+    return labels
+
+
 def check(case):
+    if case.get("kind") == "job":
+        return _job(case)
     from vf.core.runner import known_or_raise
     from annet.annlib.netdev.views.hardware import HardwareView
     from annet.deploy import apply_deploy_rulebook
